@@ -35,7 +35,7 @@ type Case struct {
 
 func genCase(t *rapid.T) Case {
 	fn := rapid.Custom(func(t *rapid.T) Fn {
-		f := Fn{Out: rapid.SampledFrom([]string{"nil", "nil", "nil", "err", "err", "err", "canceled", "canceled", "wrapcanceled", "block", "block"}).Draw(t, "out")}
+		f := Fn{Out: rapid.SampledFrom([]string{"nil", "nil", "nil", "err", "err", "err", "canceled", "canceled", "wrapcanceled", "deadline", "block", "block"}).Draw(t, "out")}
 		f.Nil = rapid.IntRange(0, 7).Draw(t, "isnil") == 0
 		if f.Out == "block" {
 			f.Then = rapid.SampledFrom([]string{"ctx", "nil", "err"}).Draw(t, "then")
@@ -101,6 +101,9 @@ func body(c *sched.Ctl, cs Case, v *ev.Verdict) {
 		if spec.Out == "wrapcanceled" {
 			errs[i] = fmt.Errorf("fn-error-%d: %w", i, context.Canceled)
 		}
+		if spec.Out == "deadline" {
+			errs[i] = context.DeadlineExceeded
+		}
 		if spec.Nil {
 			continue
 		}
@@ -123,8 +126,9 @@ func body(c *sched.Ctl, cs Case, v *ev.Verdict) {
 				return errs[i]
 			case "canceled":
 				return context.Canceled
-			case "wrapcanceled":
-				// an error that merely wraps context.Canceled is an error "other than context.Canceled"
+			case "wrapcanceled", "deadline":
+				// an error that merely wraps context.Canceled, or context.DeadlineExceeded (say from
+				// the function's own timeout), is an error "other than context.Canceled"
 				return errs[i]
 			default:
 				<-ctx.Done()
@@ -303,7 +307,7 @@ func body(c *sched.Ctl, cs Case, v *ev.Verdict) {
 	}
 	nErr := 0
 	for _, f := range cs.Fns {
-		if !f.Nil && (f.Out == "err" || f.Out == "canceled" || f.Out == "wrapcanceled") {
+		if !f.Nil && (f.Out == "err" || f.Out == "canceled" || f.Out == "wrapcanceled" || f.Out == "deadline") {
 			nErr++
 		}
 	}
